@@ -206,6 +206,21 @@ func runC13(ctx *Ctx) *Report {
 		}
 		hs = append(hs, h)
 	}
+	// wide nodes: many different names under one parent, then names that exist already (the k-th, the last …)
+	for _, w := range []int{15, 16, 17, 18, 32, 33, 64, 65} {
+		for _, again := range []int{0, 15, 16, 17, w - 2, w - 1} {
+			if again >= w {
+				continue
+			}
+			h := histCase{Kind: "hist", Fmt: fmtDefault}
+			h.Ops = append(h.Ops, "N:r", "A:0:p")
+			for j := 0; j < w; j++ {
+				h.Ops = append(h.Ops, "A:1:k"+fmtInt(j))
+			}
+			h.Ops = append(h.Ops, "O:0", "A:1:k"+fmtInt(again), "A:"+fmtInt(2+again)+":under", "O:0", "W:0", "J:0", "A:1:k"+fmtInt(again), "O:0")
+			hs = append(hs, h)
+		}
+	}
 	parallel(hs, ctx.Workers, func(m *Model, h histCase) {
 		// ids in the enumeration may refer to nodes an Add did not create; both sides then answer id=none / nilnode
 		diffs := runHist(m, h)
